@@ -370,5 +370,46 @@ theorem empty_set_releases (s : St) (h : s.cfg.paths = []) : (iteration s).watch
   simp only [h, List.isEmpty_nil, if_true]
   exact ⟨trivial, trivial⟩
 
+/-- `fire` (a hook that changes the configuration from inside the call) touches neither the watcher, the worker's own set nor the faults -/
+theorem fire_frame (s : St) (n : String) :
+    (fire s n).watcher = s.watcher ∧ (fire s n).localSet = s.localSet ∧ (fire s n).failU = s.failU := by
+  unfold fire; split <;> simp [applyCfg]
+
+/-- the part of `RecW::unwatch` after the hook has fired -/
+def unwCore (s : St) (p : WP) : St :=
+  match s.watcher with
+  | some (k, reg) =>
+    if s.failU.contains p.name || !(reg.any (·.name == p.name)) then
+      { s with errs := s.errs + errNOf s.named p.name }
+    else { s with watcher := some (k, regRemove reg p.name), localSet := s.localSet.filter (· != p) }
+  | none => s
+
+theorem doUnwatch_eq (s : St) (p : WP) : doUnwatch s p = unwCore (fire { s with log := s!"unwatch:{p.name}" :: s.log } p.name) p := rfl
+
+theorem unwCore_fail (f : St) (p : WP) (h : f.failU.contains p.name = true) :
+    (unwCore f p).localSet = f.localSet ∧ (unwCore f p).watcher = f.watcher ∧
+    (f.watcher ≠ none → (unwCore f p).errs = f.errs + errNOf f.named p.name) := by
+  have hm : p.name ∈ f.failU := by simpa using h
+  unfold unwCore
+  cases hw : f.watcher with
+  | none => simp [hw]
+  | some kr =>
+    obtain ⟨k, reg⟩ := kr
+    simp [hm]
+
+/-- **a failed unregistration is remembered, so it is attempted again**: when `unwatch` fails, the path stays in the worker's own
+    set and in the watcher's registrations, and exactly its runtime error(s) are reported — the next iteration, which drops every
+    path of that set that is no longer configured, calls `unwatch` for it again (the seeded change C13ab forgot the path first) -/
+theorem failed_unwatch_is_remembered (s : St) (p : WP) (h : s.failU.contains p.name = true) :
+    (doUnwatch s p).localSet = s.localSet ∧ (doUnwatch s p).watcher = s.watcher ∧
+    (s.watcher ≠ none → (doUnwatch s p).errs = s.errs + errNOf s.named p.name) := by
+  obtain ⟨hw, hl, hu⟩ := fire_frame { s with log := s!"unwatch:{p.name}" :: s.log } p.name
+  have he := fire_errs { s with log := s!"unwatch:{p.name}" :: s.log } p.name
+  have hn := fire_named { s with log := s!"unwatch:{p.name}" :: s.log } p.name
+  rw [doUnwatch_eq]
+  obtain ⟨h1, h2, h3⟩ := unwCore_fail (fire { s with log := s!"unwatch:{p.name}" :: s.log } p.name) p (by rw [hu]; exact h)
+  refine ⟨h1.trans hl, h2.trans hw, fun hne => ?_⟩
+  rw [h3 (by rw [hw]; exact hne), he, hn]
+
 #print axioms iteration_faults
 end Fw
